@@ -12,6 +12,13 @@ def _L():
     return WORLD.lib
 
 
+def exc_answer(e):
+    """Canonical answer for an exception: class name and the first line of its message (real OpenQL appends a
+    stack trace with addresses)."""
+    first = (str(e).splitlines() or [""])[0]
+    return {"raises": type(e).__name__, "msg": first[:200]}
+
+
 # ----------------------------------------------------------------------------- raw access
 def list_ops(h):
     """The operation listing of a handle (decl: .operations; bare composite: .decomposed_operations())."""
@@ -352,5 +359,5 @@ def full(h, ex=None, light=False, alt=False, skip=()):
         except SimSinkError:
             raise
         except Exception as e:
-            out[name] = {"raises": type(e).__name__, "msg": str(e)[:200]}
+            out[name] = exc_answer(e)
     return out
